@@ -2,7 +2,7 @@
    ONLY the property theorems, each closed by `exact <lemma>` and followed by Print Assumptions.
    Models: Types.v (registry), Rel.v (check_type_relation, `current_cfg` = /repo after the fix:
    commits 5207502 (F7), 2246a47 (F12), 2932723 (F29), 7ba69a0 (F25p), e7dcc7d (F55), dea0269 (F25)), Narrow.v (incl.
-   f9e893e = F26, 2bb39f1 = F56, d6406e8 = F87).  Specification: Sem.v (`inhab`).
+   f9e893e = F26, 2bb39f1 = F56, d6406e8 = F87, 79f9965 = F25b).  Specification: Sem.v (`inhab`).
 
    What is PROVED (for every registry, unbounded):
      compat_sound_partial      is_compatible => containment, on the cycle-free fragment
@@ -167,9 +167,7 @@ Theorem C09_complement_refuted_F24 : complement_violation current_cfg reg_F24 4 
 Proof. exact F24_current. Qed.
 Print Assumptions C09_complement_refuted_F24.
 
-Theorem C09_intersect_refuted_F25_as_found : intersect_violation f55_cfg reg_F25fn 3 4 (VFun 6) = true.
-Proof. exact F25_intersect_as_found. Qed.
-Print Assumptions C09_intersect_refuted_F25_as_found.
+
 
 (* filter_variants_by_field (narrowing a parent after a runtime test of one field succeeded): as it is in
    /repo it drops values (refuted); with the overlap test (hooks/fix_filter_variants.patch) it keeps every
